@@ -337,6 +337,8 @@ def _c15_source(tr, gate):
         for e in evs:
             if e[0] in gate and not gate[e[0]]:
                 raise Failure(f"C15 disabled indication kind {e[0]} delivered at the sender (op {st.i})")
+        if (st.tag == 7 and st.op[1] == 2) or st.ob["exc"] >= 200:
+            return      # the environment removed the source file under a running transaction: outside the property's histories
         if st.tag == 8 and st.ob["ret"] == 1:
             put = srcprops.dec_put(st.op[1:])
             started = False
